@@ -47,6 +47,14 @@ CALLS = {
     'skewa': 'base.skewa([d0, d1, d2, d3, d4, d5])', 'skewa3': 'base.skewa([x, y, z])',
     'vexa': 'base.vexa(base.skewa([d0, d1, d2, d3, d4, d5]))',
     'det': 'base.det(np.array([[x, y], [u, v]]))',
+    'det3': 'base.det(np.array([[x, y, z], [u, v, w], [d0, d1, d2]]))',
+    'det3-mixed': 'base.det(np.array([[x, 2.0, z], [0.5, v, w], [d0, d1, -3.0]]))',
+    'det3-rotation': 'base.det(base.eul2r(a, b, c))',
+    'det4': 'base.det(np.array([[x, y, z, 1], [u, v, w, 2], [d0, d1, d2, 3], [q0, q1, q2, q3]]))',
+    'det4-pose': 'base.det(base.trotx(a) @ base.transl(x, y, z))',
+    'trinv-general': 'base.trinv(base.eul2tr(a, b, c) @ base.transl(x, y, z))',
+    'norm2': 'base.norm([x, y]) ** 2', 'norm6': 'base.norm([d0, d1, d2, d3, d4, d5]) ** 2', 'normsq4': 'base.normsq([q0, q1, q2, q3])',
+    'qpow3': 'base.qpow([q0, q1, q2, q3], 3)', 'qpow-neg': 'base.qpow([q0, q1, q2, q3], -2)', 'qpow0': 'base.qpow([q0, q1, q2, q3], 0)',
     'norm': 'base.norm([x, y, z]) ** 2', 'normsq': 'base.normsq([x, y, z])', 'cross': 'base.cross(np.array([x, y, z]), np.array([u, v, w]))',
     'qpow': 'base.qpow([q0, q1, q2, q3], 2)', 'conj': 'base.conj([q0, q1, q2, q3])',
     'SO3.Rx': 'SO3.Rx(a).A', 'SO3.Ry': 'SO3.Ry(a).A', 'SO3.Rz': 'SO3.Rz(a).A',
@@ -196,6 +204,12 @@ def compare(h, name, code):
     h.true('same shape', list(num.shape) == sy['shape'])
     if list(num.shape) != sy['shape']:
         return
+    if code.startswith('base.det(') and code.endswith(')'):
+        # det() switches on dtype 'O': Term arrays take the library's symbolic branch too, so the numeric branch
+        # (np.linalg.det) is represented by its meaning over R, the cofactor expansion of the same matrix
+        from symreal.shims import det as det_ref
+        M = np.asarray(eval(code[len('base.det('):-1], ns), dtype=object)
+        h.eq('symbolic branch = determinant (meaning of np.linalg.det over R)', num, det_ref(M), tol=1e-12)
     flat = num.ravel()
     for k, (s, ex) in enumerate(zip(sy['entries'], sy['exact'])):
         e = sympy.sympify(s)
